@@ -8,6 +8,6 @@ tmp=$(mktemp -d /tmp/bwevs-XXXXXX); mkdir -p $tmp/evidence $tmp/repo; cp $V/know
 rsync -a --exclude .git --exclude mutants "$CLEAN"/ $tmp/repo/
 (cd $tmp/repo && patch -p1 -s < "$P") || { echo "apply failed"; rm -rf $tmp; exit 2; }
 trap 'rm -rf $tmp' EXIT
-VERIF_DIR=$tmp $V/bin/bwcheck checkall -repo $tmp/repo > $tmp/all.out 2>&1
+VERIF_DIR=$tmp ${BWCHECK:-$V/bin/bwcheck} checkall -repo $tmp/repo > $tmp/all.out 2>&1
 grep -E "^C[0-9]+ exit=[12]| rule=" $tmp/all.out | grep -v KNOWN-FINDING | cut -c1-260
 echo "eval done"
